@@ -121,30 +121,54 @@ the hello it answers: both travel in the same CRC form with the same 26 bytes of
 datagram sent is never larger than the datagram received, for every MTU and every padding -/
 theorem C11_hello_reply_once (H : Hs) (tok : Nat) (c : Conn) (t : Int) (data : Bytes) :
     (serverClientHello H tok c t data).1.outgoing = c.outgoing ∨
-    (H.parseClientHello data = .ok 1 ∧
+    (c.key = none ∧ H.parseClientHello data = .ok 1 ∧
       ∃ m, (serverClientHello H tok c t data).1.outgoing = c.outgoing ++ [m] ∧ m.ty = .serverHello ∧
-        m.payload = (H.serverReply data tok).2 ∧ m.payload.length ≤ data.length) := by
+        m.payload = (H.serverReply data tok).2 ∧ m.payload.length ≤ data.length ∧
+        (serverClientHello H tok c t data).1.key.isSome = true) := by
   unfold serverClientHello
-  cases hp : H.parseClientHello data with
-  | error e => left; rfl
-  | ok v =>
-    simp only
-    by_cases hv : v = 1
-    · subst hv
-      by_cases hlen : (H.serverReply data tok).2.length > data.length
-      · left; simp [hlen]
-      · right
-        refine ⟨rfl, ?_⟩
-        simp only [ne_eq, not_true_eq_false, if_false, hlen, sendType]
-        split <;> exact ⟨_, rfl, rfl, rfl, by simp only; omega⟩
-    · left; simp [hv]
+  by_cases hk : c.key.isSome = true
+  · left; rw [if_pos hk]
+  · rw [if_neg hk]
+    have hkn : c.key = none := by
+      cases hkk : c.key with
+      | none => rfl
+      | some k => rw [hkk] at hk; exact absurd rfl hk
+    cases hp : H.parseClientHello data with
+    | error e => left; rfl
+    | ok v =>
+      simp only
+      by_cases hv : v = 1
+      · subst hv
+        by_cases hlen : (H.serverReply data tok).2.length > data.length
+        · left; simp [hlen]
+        · right
+          refine ⟨hkn, rfl, ?_⟩
+          simp only [ne_eq, not_true_eq_false, if_false, hlen, sendType]
+          split <;> exact ⟨_, rfl, rfl, rfl, by simp only; omega, rfl⟩
+      · left; simp [hv]
 
-/-- a hello that is shorter than the reply it asks for leaves the connection without key, token
-and reply (an MTU too small for the padding to cover the server hello cannot connect) -/
-theorem C11_short_hello_not_answered (H : Hs) (tok : Nat) (c : Conn) (t : Int) (data : Bytes)
+/-- a hello that is shorter than the reply it asks for leaves the fresh connection without key,
+token and reply (an MTU too small for the padding to cover the server hello cannot connect) -/
+theorem C11_short_hello_not_answered (H : Hs) (tok : Nat) (c : Conn) (t : Int) (data : Bytes) (hk : c.key = none)
     (hv : H.parseClientHello data = .ok 1) (hlen : (H.serverReply data tok).2.length > data.length) :
     serverClientHello H tok c t data = ({ c with token := 0, key := none }, [], none) := by
-  simp [serverClientHello, hv, hlen]
+  simp [serverClientHello, hk, hv, hlen]
+
+/-- **One hello per connection** (as repaired): a connection that already has a session key
+ignores every further client hello - whatever it contains, before anything of it is parsed.  Such
+a hello can only arrive sealed under the session key, from a peer that holds the key but has not
+necessarily answered the challenge; answering each of them again is what let one datagram with
+several hellos draw more bytes from the server than it carried. -/
+theorem C11_one_hello_per_connection (H : Hs) (tok : Nat) (c : Conn) (t : Int) (data : Bytes)
+    (hk : c.key.isSome = true) : serverClientHello H tok c t data = (c, [], none) := by
+  simp [serverClientHello, hk]
+
+/-- ... and the key, once there, is never taken away by a hello: with `C11_hello_reply_once`
+(a reply is queued only by a connection without key, which has one afterwards) a connection
+queues at most one SERVER_HELLO in its life as far as the hello handler is concerned -/
+theorem C11_hello_keeps_key (H : Hs) (tok : Nat) (c : Conn) (t : Int) (data : Bytes)
+    (hk : c.key.isSome = true) : (serverClientHello H tok c t data).1.key.isSome = true := by
+  rw [C11_one_hello_per_connection H tok c t data hk]; exact hk
 
 /-! ### non-vacuity -/
 
